@@ -642,6 +642,38 @@ pub fn run(ctx: &Ctx) -> Outcome {
         co
     });
 
+    // rectangles with no width, no height or neither, as PathBuilder::rect builds them: sides of no length have no
+    // direction, the two long sides turn straight back at either end (no miter there, whatever the limit)
+    run_cases(ctx, &mut out, SubSpec { name: "rectangles_without_width_or_height", cases: ctx.n(1_500, 30_000), exhaustive: false, max_secs: 60. }, |i, want, st| {
+        let mut rng = ctx.rng("rectangles_without_width_or_height", i);
+        let w = rng.int(24, 40) as i32;
+        let h = rng.int(24, 40) as i32;
+        let (x, y) = (rng.int(8, 14) as f32 + if rng.chance(0.5) { 0.5 } else { 0. }, rng.int(8, 14) as f32);
+        let len = rng.int(6, 14) as f32 * if rng.chance(0.3) { -1. } else { 1. };
+        let (rw, rh) = match rng.below(4) { 0 => (len, 0.), 1 => (0., len), 2 => (0., 0.), _ => (len, rng.int(5, 9) as f32) };
+        let mut pb = PathBuilder::new();
+        if rng.chance(0.2) {
+            pb.move_to(2., 2.);
+            pb.line_to(5., 3.);
+        }
+        pb.rect(x, y, rw, rh);
+        let style = StrokeStyle { width: rng.int(3, 9) as f32, cap: *rng.pick(&[LineCap::Butt, LineCap::Square, LineCap::Round]), join: *rng.pick(&[LineJoin::Miter, LineJoin::Miter, LineJoin::Bevel, LineJoin::Round]), miter_limit: *rng.pick(&[1.0f32, 1.5, 4., 10.]), dash_array: vec![], dash_offset: 0. };
+        let t = if rng.chance(0.6) { Transform::identity() } else { Transform::translation(rng.range(-2., 2.) as f32, rng.range(-2., 2.) as f32) };
+        let c = StrokeCase { w, h, path: pb.finish(), style, t, aa: rng.chance(0.8) };
+        let mut co = CaseOut::default();
+        co.hash = crate::prng::hash_str(&format!("{:?}{:?}{:?}", c.path, c.style, c.t));
+        let (res, skipped) = run_stroke_case(&c, st);
+        st.add(if rw == 0. || rh == 0. { "rectangles_without_width_or_height_stroked" } else { "ordinary_rectangles_stroked" }, 1);
+        co.nontrivial = !skipped && res.outside > 0;
+        if let Some(v) = res.violation {
+            co.viol("C04", format!("rect({}, {}, {}, {}): {}", x, y, rw, rh, v));
+        }
+        if want || !co.violations.is_empty() {
+            co.desc = Some(case_desc(&c));
+        }
+        co
+    });
+
     // a stroke whose path lies wholly outside the surface but which reaches in because the transform stretches its
     // width most in a direction that is not the image of an axis (a rotation followed by an uneven scale, a shear)
     run_cases(ctx, &mut out, SubSpec { name: "strokes_reaching_in_under_stretching_transforms", cases: ctx.n(3_000, 60_000), exhaustive: false, max_secs: 60. }, |i, want, st| {
